@@ -39,7 +39,12 @@ class SpartanProtocol(BaseGopherProtocol):
 
         content_length = int(content_length)
         if content_length:
-            data = self.rfile.read(content_length)
+            try:
+                data = self.rfile.read(content_length)
+            except OverflowError:
+                # A length that does not even fit into a machine word.
+                self.write_status(4, "Content length too large")
+                return
             self.searchrequest = data.decode(errors="surrogateescape")
 
         try:
